@@ -29,7 +29,7 @@ for v in verdicts:
         if f["clause"].startswith(pre):
             key = (f["clause"], tuple(f.get("kf", [])))
             failed[key] += 1
-            ex.setdefault(key, (v["id"], json.dumps(f.get("diff"))[:300]))
+            ex.setdefault(key, (v["id"], json.dumps(f.get("diff"))[:1800]))
 print("verdicts", len(verdicts)); print("exceptions", dict(excs))
 for c, k in sorted(dom.items()): print("  dom", c, k)
 for key, k in sorted(failed.items()): print("  FAILED", key, k, ex[key])
